@@ -65,28 +65,59 @@ static std::vector<double> slice(const std::vector<double> &v, const Parts &p) {
     return std::vector<double>(v.begin() + p.b(world.rank), v.begin() + p.e(world.rank));
 }
 // strip with global columns, entries sorted by column (values of equal columns are not merged)
-static std::string show_strip(const DM &A) {
+template <class AnyDM>
+static std::string show_strip(const AnyDM &A, bool pattern_only = false) {
     if (!A.local() || !A.remote()) return "{gone}";
-    const Mat &L = *A.local(); const Mat &R = *A.remote();
+    auto &L = *A.local(); auto &R = *A.remote();
     long n = A.loc_rows(), shift = A.loc_col_shift(), gc = A.glob_cols();
     std::ostringstream os; os << "{" << n << " " << gc;
     for (long i = 0; i < n; ++i) {
         os << " |";
         std::vector<std::pair<long, std::string> > es;
-        for (ptrdiff_t j = L.ptr[i]; j < L.ptr[i+1]; ++j) es.push_back(std::make_pair((long)L.col[j] + shift, show(L.val[j])));
+        for (ptrdiff_t j = L.ptr[i]; j < L.ptr[i+1]; ++j)
+            es.push_back(std::make_pair((long)L.col[j] + shift, pattern_only ? std::string("1") : show((double)L.val[j])));
         for (ptrdiff_t j = R.ptr[i]; j < R.ptr[i+1]; ++j) {
             long c = R.col[j];
             if (c < 0 || c >= gc || (c >= shift && c < shift + (long)L.ncols)) return "BADDM remote-col";
-            es.push_back(std::make_pair(c, show(R.val[j]))); }
+            es.push_back(std::make_pair(c, pattern_only ? std::string("1") : show((double)R.val[j]))); }
         std::sort(es.begin(), es.end());
         for (auto &e : es) os << " " << e.first << ":" << e.second;
     }
     os << "}"; return os.str();
 }
+static std::vector<double> csv(const std::string &w) {
+    std::vector<double> v; size_t a = 0;
+    while (a <= w.size()) { size_t b = w.find(',', a); if (b == std::string::npos) b = w.size();
+        if (b > a) v.push_back((double)vq::parse(w.substr(a, b - a))); a = b + 1; }
+    return v;
+}
 static std::string bits(double r) { unsigned long long b; std::memcpy(&b, &r, 8); std::ostringstream os; os << std::hex << b; return os.str(); }
 
 // ---------------------------------------------------------------- recording coarsening wrapper
 static std::vector<std::string>& level_log() { static std::vector<std::string> l; return l; }
+
+// near-null space held by the coarsening object (pmis::params::nullspace): before transfer_operators it
+// is the B of the level being coarsened (local rows, row-major), afterwards the coarse B (R factors)
+typedef amgcl::coarsening::nullspace_params NS;
+typedef amgcl::runtime::mpi::coarsening::wrapper<Backend> RtCoarsening;
+static NS* nullspace_of(RtCoarsening &w) {
+    switch (w.c) {
+        case amgcl::runtime::mpi::coarsening::aggregation:
+            return &static_cast<amgcl::mpi::coarsening::aggregation<Backend>*>(w.handle)->prm.aggr.nullspace;
+        case amgcl::runtime::mpi::coarsening::smoothed_aggregation:
+            return &static_cast<amgcl::mpi::coarsening::smoothed_aggregation<Backend>*>(w.handle)->prm.aggr.nullspace;
+        default: return 0;
+    }
+}
+template <class C> static NS* nullspace_of(C &) { return 0; }
+// dense rows x cols block as "{rows cols | 0:v 1:v ... | ...}"; the number of rows is what the object HOLDS
+// (B.size() / cols), the caller compares it with the number of rows the level has
+static std::string show_dense(const std::vector<double> &B, int cols) {
+    long rows = cols ? (long)(B.size() / cols) : 0;
+    std::ostringstream os; os << "{" << rows << " " << cols;
+    for (long i = 0; i < rows; ++i) { os << " |"; for (int c = 0; c < cols; ++c) os << " " << c << ":" << show(B[i * cols + c]); }
+    os << "}"; return os.str();
+}
 
 template <class C>
 struct recording {
@@ -96,10 +127,14 @@ struct recording {
     std::tuple< std::shared_ptr<DM>, std::shared_ptr<DM> >
     transfer_operators(const DM &A) {
         std::string a = show_strip(A);      // before the call: sort_rows inside may reorder, never change
+        NS *ns = nullspace_of(base);
+        std::string b; if (ns && ns->cols > 0) b = show_dense(ns->B, ns->cols);
         auto PR = base.transfer_operators(A);
         level_log().push_back("A" + a);
+        if (ns && ns->cols > 0) level_log().push_back("B" + b);
         level_log().push_back("P" + show_strip(*std::get<0>(PR)));
         level_log().push_back("R" + show_strip(*std::get<1>(PR)));
+        if (ns && ns->cols > 0) level_log().push_back("N" + show_dense(ns->B, ns->cols));
         return PR;
     }
     std::shared_ptr<DM> coarse_operator(const DM &A, const DM &P, const DM &R) const {
@@ -165,6 +200,18 @@ MOP(solve) {
     std::vector<double> f = t.vecT<double>(), x0 = t.vecT<double>(); long repeat = t.i();
     std::vector<double> fl = slice(f, p), xl = slice(x0, p);
     auto D = dist(*A, p, p);
+    // near-null space: ns.cols=K ns.B=v,v,...  (global, row-major n x K); every rank passes ITS rows
+    std::vector<double> Bl;
+    if (prm.count("ns")) {
+        int K = prm.get<int>("ns.cols"); std::vector<double> Bg = csv(prm.get<std::string>("ns.B"));
+        prm.erase("ns");
+        if ((long)Bg.size() != p.total * K) throw std::runtime_error("ns.B size");
+        Bl.assign(Bg.begin() + p.b(world.rank) * K, Bg.begin() + p.e(world.rank) * K);
+        if ((int)Bl.size() < K) Bl.resize(K, 0.0);  // empty rank: the parameter parser wants a pointer and rows >= 1
+        prm.put("precond.coarsening.aggr.nullspace.cols", K);
+        prm.put("precond.coarsening.aggr.nullspace.rows", std::max<long>(1, p.n(world.rank)));
+        prm.put("precond.coarsening.aggr.nullspace.B", static_cast<double*>(Bl.data()));
+    }
     level_log().clear();
     quiet_cout q;
     std::string out;
@@ -177,6 +224,31 @@ MOP(solve) {
     } else throw std::invalid_argument("precond.class");
     std::ostringstream os; os << out << " L " << level_log().size();
     for (auto &s : level_log()) os << " " << s;
+    return os.str();
+}
+
+// pmis <eps_strong=q block_size=k> -- A parts K B : amgcl::mpi::coarsening::pmis<Backend> itself (the aggregation +
+// tentative prolongation used by both distributed coarsenings).  Every rank reports the number of its
+// aggregates' columns, its strip of P_tent (global columns), the coarse near-null space it holds afterwards,
+// and the pattern of the strength-of-connection matrix (global columns).
+MOP(pmis) {
+    std::string cls; ptree cfg = config(t, cls);
+    auto A = t.crsT<double>(); Parts p = parts(t);
+    long K = t.i(); std::vector<double> Bg = t.vecT<double>();
+    if ((long)Bg.size() != p.total * K) throw std::runtime_error("B size");
+    auto D = dist(*A, p, p);
+    typedef amgcl::mpi::coarsening::pmis<Backend> PMIS;
+    PMIS::params prm;
+    prm.eps_strong = (double)vq::parse(cfg.get<std::string>("eps_strong", "2/25"));
+    prm.block_size = cfg.get<unsigned>("block_size", 1u);
+    prm.nullspace.cols = (int)K;
+    prm.nullspace.B.assign(Bg.begin() + p.b(world.rank) * K, Bg.begin() + p.e(world.rank) * K);
+    quiet_cout q;
+    PMIS aggr(*D, prm);
+    std::ostringstream os;
+    os << "na=" << aggr.p_tent->local()->ncols << " P" << show_strip(*aggr.p_tent);
+    if (K > 0) os << " N" << show_dense(prm.nullspace.B, (int)K);
+    os << " S" << show_strip(*aggr.conn, true);
     return os.str();
 }
 
